@@ -414,3 +414,35 @@ Definition run_prune (rc : graph) (raw : list mapping) : tok :=
   let kept := prune (@snd nat mapping) rc (indexed raw) in
   L [ tlist (tlist (tpair tN tN)) raw; tlist (fun p => tnat (fst p)) kept;
       tN (if (1 <? length raw)%nat then N.of_nat (length (rule_auts rc)) else 0%N) ].
+
+(** Automorphism._analyze_component as a function of the enumeration [E] it is handed (VF2's isomorphisms_iter
+    abstracted); [analyze_component fn fe g] is this function at [auts fn fe g] (proof/C11_Main.v) *)
+Definition analyze_component_with (ns : list N) (E : list mapping) : list (list N) * N :=
+  match ns with
+  | [] => ([], 1%N)
+  | [n] => ([[n]], 1%N)
+  | _ =>
+      match E with
+      | [] => (map (fun n => [n]) ns, 1%N)
+      | _ => (dedupL (map (orbit_set E) ns), N.of_nat (length E))
+      end
+  end.
+
+(** ---------- well-formedness of an encoded graph (the premise [LGraph.wf] of the theorems, as a computation;
+    evaluated on every aut / dedup case so that the premise is monitored) ---------- *)
+Fixpoint nodupb (l : list N) : bool :=
+  match l with [] => true | x :: r => negb (LGraph.mem x r) && nodupb r end.
+Fixpoint uniq_edges (es : list (N * N * elab)) : bool :=
+  match es with
+  | [] => true
+  | (a, b, _) :: r => match find_edge a b r with None => uniq_edges r | Some _ => false end
+  end.
+Definition wfb (g : graph) : bool :=
+  nodupb (node_ids g)
+  && forallb (fun e => let '(a, b, _) := e in
+                       LGraph.mem a (node_ids g) && LGraph.mem b (node_ids g) && negb (N.eqb a b)) (gedges g)
+  && uniq_edges (gedges g).
+
+Definition run_aut_wf (g : graph) : tok := L [ run_aut g; tbool (wfb g) ].
+Definition run_dedup_wf (p h : graph) (ms : list mapping) : tok := L [ run_dedup p h ms; tbool (wfb p); tbool (wfb h) ].
+Definition run_prune_wf (rc : graph) (raw : list mapping) : tok := L [ run_prune rc raw; tbool (wfb rc) ].
